@@ -7,6 +7,9 @@
 //
 // op     : lim=<headerLimit>;end=<eof|stall>;rb=<app read size>;k=<kind>;d=<hex chunk>|<hex chunk>|...
 // result : src=<ip16hex>:<port>|sock dst=<ip16hex>:<port>|nil data=<hex> fin=<eof|stall|err> closed=<0|1>
+//
+//	bal=<sock|nil> (BalancerAddr) st=<1: addresses unchanged after all reads> rc=<ok|bad-..: Read's (n, err) contract>
+//	co=<1: a companion connection read alternately got its own header and payload>
 package main
 
 import (
@@ -20,7 +23,8 @@ import (
 	"time"
 
 	"bfeverif/harness/internal/vh"
-	"github.com/bfenetworks/bfe/bfe_proxy"
+	"github.com/bfenetworks/bfe/bfe_config/bfe_conf"
+	"github.com/bfenetworks/bfe/bfe_server"
 )
 
 // ---------------------------------------------------------------------------------------------
@@ -41,6 +45,8 @@ type sconn struct {
 	closed   bool
 	deadline time.Time
 	reads    int
+	zero     bool // an empty chunk is delivered as a (0, nil) read instead of being skipped
+	eofd     bool // the last data chunk is returned together with io.EOF in the same call
 }
 
 var sockRemote = &net.TCPAddr{IP: net.IPv4(10, 9, 8, 7), Port: 4321}
@@ -56,6 +62,9 @@ func (c *sconn) Read(p []byte) (int, error) {
 	}
 	for len(c.chunks) > 0 && len(c.chunks[0]) == 0 {
 		c.chunks = c.chunks[1:]
+		if c.zero && len(p) > 0 {
+			return 0, nil
+		}
 	}
 	if len(c.chunks) == 0 {
 		if c.end == "eof" {
@@ -71,6 +80,18 @@ func (c *sconn) Read(p []byte) (int, error) {
 	}
 	n := copy(p, c.chunks[0])
 	c.chunks[0] = c.chunks[0][n:]
+	if c.eofd && c.end == "eof" && len(c.chunks[0]) == 0 {
+		last := true
+		for _, r := range c.chunks[1:] {
+			if len(r) > 0 {
+				last = false
+			}
+		}
+		if last {
+			c.chunks = nil
+			return n, io.EOF
+		}
+	}
 	return n, nil
 }
 func (c *sconn) Write(p []byte) (int, error)        { return len(p), nil }
@@ -107,6 +128,7 @@ func exec(op string) string {
 	rb := 512
 	var chunks [][]byte
 	ipField, haveIP := "", false
+	zero, eofd := false, false
 	for _, f := range strings.Split(op, ";") {
 		kv := strings.SplitN(f, "=", 2)
 		if len(kv) != 2 {
@@ -128,6 +150,8 @@ func exec(op string) string {
 			}
 			rb = v
 		case "k":
+		case "z":
+			zero = kv[1] == "1"
 		case "ip":
 			ipField = kv[1]
 			haveIP = true
@@ -143,6 +167,9 @@ func exec(op string) string {
 			return "bad-op"
 		}
 	}
+	if end == "eofd" { // peer closes; the last data arrive together with io.EOF in one Read
+		end, eofd = "eof", true
+	}
 	if end != "eof" && end != "stall" {
 		return "bad-op"
 	}
@@ -153,19 +180,45 @@ func exec(op string) string {
 	if !haveIP || ipField != ipTable(whole) {
 		return "bad-op" // the ParseIP oracle table must be the one net.ParseIP gives for this stream
 	}
-	sc := &sconn{chunks: chunks, end: end}
-	pc := bfe_proxy.NewConn(sc, time.Hour, lim)
+	sc := &sconn{chunks: chunks, end: end, zero: zero, eofd: eofd}
+	// the real entry point: bfe_server.BfeListener.Accept wraps the accepted conn when the balancer type is PROXY
+	pc, ok := acceptVia(sc, lim)
+	if !ok {
+		return "err:listener"
+	}
+	// a second connection with a fixed, known stream is read alternately with the case's connection
+	// (two header parses / two readers in flight must not influence each other)
+	comp, _ := acceptVia(&sconn{chunks: [][]byte{[]byte(companion[:20]), []byte(companion[20:])}, end: "eof"}, 0)
+	var compData []byte
+	compStep := func() {
+		b := make([]byte, 5)
+		n, _ := comp.Read(b)
+		compData = append(compData, b[:n]...)
+	}
 	src := addrStr(pc.RemoteAddr(), "nil")
+	compStep()
 	dst := addrStr(pc.VirtualAddr(), "nil")
+	bal := addrStr(pc.BalancerAddr(), "nil")
 	var data []byte
 	fin := "err"
+	rc := "ok"
 	buf := make([]byte, rb)
 	for i := 0; ; i++ {
 		if i > 1<<20 {
 			return "LOOP"
 		}
 		n, err := pc.Read(buf)
+		if n < 0 || n > len(buf) {
+			rc = "bad-count"
+			break
+		}
+		if n == 0 && err == nil && !zero {
+			rc = "bad-zero-nil"
+		}
 		data = append(data, buf[:n]...)
+		if i%2 == 0 {
+			compStep()
+		}
 		if err == nil {
 			continue
 		}
@@ -174,13 +227,72 @@ func exec(op string) string {
 		} else if err == errStall {
 			fin = "stall"
 		}
+		// the error is final: further Reads deliver nothing
+		for k := 0; k < 2; k++ {
+			if n2, err2 := pc.Read(buf); n2 != 0 || err2 == nil {
+				rc = "bad-read-after-error"
+			}
+		}
 		break
+	}
+	for len(compData) < len(companionData)+8 {
+		before := len(compData)
+		compStep()
+		if len(compData) == before {
+			break
+		}
+	}
+	co := 0
+	if string(compData) == companionData && addrStr(comp.RemoteAddr(), "nil") == companionSrc {
+		co = 1
+	}
+	// the addresses are those of the header, also after all data were read (no aliasing of parser buffers)
+	st := 0
+	if addrStr(pc.RemoteAddr(), "nil") == src && addrStr(pc.VirtualAddr(), "nil") == dst && addrStr(pc.BalancerAddr(), "nil") == bal {
+		st = 1
 	}
 	cl := 0
 	if sc.closed {
 		cl = 1
 	}
-	return fmt.Sprintf("src=%s dst=%s data=%s fin=%s closed=%d", src, dst, vh.Hex(data), fin, cl)
+	return fmt.Sprintf("src=%s dst=%s data=%s fin=%s closed=%d bal=%s st=%d rc=%s co=%d", src, dst, vh.Hex(data), fin, cl, bal, st, rc, co)
+}
+
+const companion = "PROXY TCP4 1.2.3.4 5.6.7.8 1000 443\r\nCOMPANION-PAYLOAD"
+const companionData = "COMPANION-PAYLOAD"
+const companionSrc = "00000000000000000000ffff01020304:1000"
+
+type proxyConn interface {
+	net.Conn
+	VirtualAddr() net.Addr
+	BalancerAddr() net.Addr
+}
+
+type oneListener struct{ c net.Conn }
+
+func (l *oneListener) Accept() (net.Conn, error) {
+	if l.c == nil {
+		return nil, io.EOF
+	}
+	c := l.c
+	l.c = nil
+	return c, nil
+}
+func (l *oneListener) Close() error   { return nil }
+func (l *oneListener) Addr() net.Addr { return sockLocal }
+
+func acceptVia(sc *sconn, lim int64) (proxyConn, bool) {
+	var cfg bfe_conf.BfeConfig
+	cfg.Server.Layer4LoadBalancer = bfe_conf.BalancerProxy
+	cfg.Server.ClientReadTimeout = 3600
+	cfg.Server.MaxProxyHeaderBytes = int(lim)
+	l := bfe_server.NewBfeListener(&oneListener{c: sc}, cfg)
+	c, err := l.Accept()
+	if err != nil {
+		return nil, false
+	}
+	pc, ok := c.(proxyConn)
+	return pc, ok
 }
 
 // ipTable is the oracle table handed to the Lean model for net.ParseIP: the two address tokens of the
@@ -367,6 +479,18 @@ func genV1(r *vh.Rand) ([]byte, string) {
 			bs = "::ffff:" + bs
 		}
 		return []byte(fmt.Sprintf("PROXY TCP6 %s %s %d %d\r\n", as, bs, randPort(r), randPort(r))), "v1tcp6m"
+	case 7: // legal IPv6 text forms: upper case, leading zeros, :: at either end, embedded dotted quad (not v4-mapped)
+		forms := []string{"::", "::1", "1::", "2001:DB8::A", "0:0:0:0:0:0:0:1", "64:ff9b::1.2.3.4", "1:2:3:4:5:6:7::",
+			"::2:3:4:5:6:7:8", "0001:0002:0003:0004:0005:0006:0007:0008", "ffff:ffff:ffff:ffff:ffff:ffff:ffff:ffff",
+			"fe80::1", "2001:db8:0:0:1::1", "1:2:3:4:5:6:77.88.99.100"}
+		return []byte(fmt.Sprintf("PROXY TCP6 %s %s %d %d\r\n", forms[r.Intn(len(forms))], forms[r.Intn(len(forms))], randPort(r), randPort(r))), "v1tcp6f"
+	case 8: // the longest lines the protocol allows: 107 bytes for UNKNOWN, 104 for TCP6; and one byte more
+		if r.Bool() {
+			n := 107 - len("PROXY UNKNOWN \r\n") + r.Intn(3) - 1
+			return []byte("PROXY UNKNOWN " + strings.Repeat("u", n) + "\r\n"), "v1unk107"
+		}
+		full := "ffff:ffff:ffff:ffff:ffff:ffff:ffff:ffff"
+		return []byte(fmt.Sprintf("PROXY TCP6 %s %s 65535 65535\r\n", full, full)), "v1tcp6max"
 	default:
 		a, b := randIP6(r, false), randIP6(r, false)
 		as, bs := a.String(), b.String()
@@ -551,7 +675,13 @@ func opLine(lim int, end string, rb int, kind string, chunks [][]byte) string {
 		hs[i] = vh.Hex(c)
 		whole = append(whole, c...)
 	}
-	return fmt.Sprintf("lim=%d;end=%s;rb=%d;k=%s;ip=%s;d=%s", lim, end, rb, kind, ipTable(whole), strings.Join(hs, "|"))
+	z := ""
+	for i, c := range chunks {
+		if len(c) == 0 && i > 0 && i < len(chunks)-1 {
+			z = ";z=1" // empty chunks in the middle are delivered as (0, nil) reads
+		}
+	}
+	return fmt.Sprintf("lim=%d;end=%s;rb=%d;k=%s%s;ip=%s;d=%s", lim, end, rb, kind, z, ipTable(whole), strings.Join(hs, "|"))
 }
 
 func payload(r *vh.Rand) []byte {
@@ -608,18 +738,50 @@ func gen(r *vh.Rand) string {
 		lim = 0
 	}
 	end := "eof"
-	if r.Chance(1, 3) {
+	switch r.Intn(6) {
+	case 0, 1:
 		end = "stall"
+	case 2:
+		end = "eofd" // the last bytes arrive together with io.EOF in one Read
 	}
 	rb := []int{1, 7, 512, 4096, 8192}[r.Intn(5)]
 	if len(s) > 3000 && rb < 512 {
 		rb = 512
 	}
-	return opLine(lim, end, rb, kind, chunkUp(r, s, len(h)))
+	chunks := chunkUp(r, s, len(h))
+	if r.Chance(1, 5) && len(chunks) >= 2 { // empty reads between the segments
+		var withEmpty [][]byte
+		for i, c := range chunks {
+			withEmpty = append(withEmpty, c)
+			if i < len(chunks)-1 && r.Chance(1, 2) {
+				withEmpty = append(withEmpty, nil)
+			}
+		}
+		chunks = withEmpty
+	}
+	return opLine(lim, end, rb, kind, chunks)
 }
 
 // Pre: every conformant fixture delivered in two pieces split at EVERY offset, and byte by byte.
 func pre(emit func(string), thorough bool) {
+	// block of exactly the bufio buffer size, one more, and around the default header limit; payload right behind
+	for _, n := range []int{4096 - 12, 4097 - 12, 2048 - 16 - 12, 2048 - 16 - 12 + 1} {
+		h := append(append([]byte(nil), sigV2...), 0x21, 0x11)
+		h = append(h, be16(12+n)...)
+		h = append(h, 1, 2, 3, 4, 5, 6, 7, 8, 0x03, 0xe8, 0x01, 0xbb)
+		h = append(h, bytes.Repeat([]byte{0xEE}, n)...)
+		s := append(h, []byte("hello")...)
+		for _, lim := range []int{0, 70000} {
+			emit(opLine(lim, "eof", 512, "v2big", [][]byte{s}))
+			emit(opLine(lim, "eofd", 7, "v2big", [][]byte{s[:20], s[20 : len(h)-1], s[len(h)-1:]}))
+			emit(opLine(lim, "stall", 4096, "v2big", [][]byte{s[:len(h)], nil, s[len(h):]}))
+		}
+	}
+	// ports 0 / 65535 / 65536 and friends
+	for _, p := range []string{"0", "65535", "65536", "00", "065535", "-1", "99999", "6553 5", ""} {
+		emit(opLine(0, "eof", 512, "v1port", [][]byte{[]byte("PROXY TCP4 1.2.3.4 5.6.7.8 " + p + " 80\r\nhello")}))
+		emit(opLine(0, "eof", 512, "v1port", [][]byte{[]byte("PROXY TCP4 1.2.3.4 5.6.7.8 80 " + p + "\r\nhello")}))
+	}
 	fix := [][2]string{
 		{"v1tcp4", "PROXY TCP4 192.168.0.1 10.0.0.2 56324 443\r\n"},
 		{"v1tcp6", "PROXY TCP6 2001:db8::68 ffff:ffff:ffff:ffff:ffff:ffff:ffff:ffff 65535 0\r\n"},
@@ -635,6 +797,10 @@ func pre(emit func(string), thorough bool) {
 		{"v2tcp6m", string(sigV2) + "\x21\x21\x00\x24" + strings.Repeat("\x00", 10) + "\xff\xff\x01\x02\x03\x04" + strings.Repeat("\x00", 15) + "\x01\x03\xe8\x01\xbb"},
 		{"v2udp4", string(sigV2) + "\x21\x12\x00\x0c\x01\x02\x03\x04\x05\x06\x07\x08\x03\xe8\x01\xbb"},
 		{"v2unspec", string(sigV2) + "\x21\x00\x00\x00"},
+		{"v1unk107", "PROXY UNKNOWN " + strings.Repeat("u", 107-16) + "\r\n"},
+		{"v1tcp6max", "PROXY TCP6 ffff:ffff:ffff:ffff:ffff:ffff:ffff:ffff ffff:ffff:ffff:ffff:ffff:ffff:ffff:ffff 65535 65535\r\n"},
+		{"v1tcp6f", "PROXY TCP6 64:ff9b::1.2.3.4 2001:DB8::A 0 65535\r\n"},
+		{"v2tcp4", string(sigV2) + "\x21\x11\x00\x0c\x00\x00\x00\x00\xff\xff\xff\xff\x00\x00\xff\xff"},
 		{"n-http", "GET / HTTP/1.1\r\n\r\n"},
 		{"n-crlf", "\r\nGET / HTTP/1.1\r\n\r\n"},
 		{"n-near1", "PROXZ TCP4 1.1.1.1 2.2.2.2 1 2\r\n"},
@@ -645,6 +811,9 @@ func pre(emit func(string), thorough bool) {
 			for _, end := range []string{"eof", "stall"} {
 				for i := 0; i <= len(s); i++ {
 					emit(opLine(0, end, 512, f[0], [][]byte{s[:i], s[i:]}))
+					if end == "eof" && i%3 == 0 {
+						emit(opLine(0, "eofd", 512, f[0], [][]byte{s[:i], nil, s[i:]}))
+					}
 				}
 				var bb [][]byte
 				for i := range s {
